@@ -20,6 +20,7 @@ def run(c):
     r3(c)
     r4(c)
     r5(c)
+    r6(c)
 
 
 def _bucket_of(pv, e):
@@ -125,6 +126,18 @@ def r1(c):
                     continue
             if shape is None:
                 c.violated("C11.R1", repo.loc(m, col), f"{vendor}._process_vlandb/{arm}", f"the {arm} command lists `{norm(src)[:60]}`, which is not a set difference of the old and new VLAN sets", key_text=f"{arm}-not-difference")
+                continue
+            # both operands are the parsed sets as parsed: a set narrowed before the difference (new -= ...) silently enlarges the other side's result
+            altered = None
+            for opnd in shape:
+                if isinstance(opnd, ast.Name):
+                    for d in pv.rd.defs(opnd):
+                        if d.kind in ("aug", "mut") or (d.kind == "assign" and not isinstance(d.value, ast.Call)):
+                            altered = (opnd, d)
+            if altered is not None:
+                d = altered[1]
+                c.violated("C11.R1", repo.loc(m, d.stmt or col), f"{vendor}._process_vlandb/{arm}", f"`{altered[0].id}` is altered (`{norm(d.stmt)[:50] if d.stmt is not None else ''}`) before the "
+                           f"set difference is taken: ids dropped from it count as {'removed' if arm == 'removal' else 'added'} although they are in both sets", key_text=f"{arm}-operand-altered")
                 continue
             left, right = _bucket_of(pv, shape[0]), _bucket_of(pv, shape[1])
             want = ({"REMOVED"}, {"ADDED"}) if arm == "removal" else ({"ADDED"}, {"REMOVED"})
@@ -281,3 +294,21 @@ def r5(c):
             c.violated("C11.R5", repo.loc(m, node), f"{m.name.split('.', 1)[-1]}:{fq}", f"`{norm(node)[:60]}` mutates a set that may be the memoised result of lib.{src}: the ids merged into it "
                        "stay in the cache entry of that range text, and every later diff in this process that contains the same text sees them (VLANs present in both "
                        "sets are removed / re-added)", key_text=f"mutates-cached:{src}")
+
+
+def r6(c):
+    repo = c.repo
+    c.rule("C11.R6", "collapse helpers enumerate ranges inclusively: in annlib.lib.collapse_vlandb a (first, last) pair is never expanded with range(pair[0], pair[1]) — the last id "
+                     "of the pair would be dropped from the printed list (expand(collapse(S)) != S)")
+    LIB = "annet.annlib.lib"
+    lm = repo.module(LIB)
+    fn = repo.func(LIB, "collapse_vlandb", canon=False)
+    c.count("functions")
+    bad = []
+    for x in ast.walk(fn):
+        if isinstance(x, ast.Call) and call_name(x) == "range" and len(x.args) == 2:
+            a, b = x.args
+            if isinstance(a, ast.Subscript) and isinstance(b, ast.Subscript) and norm(a.value) == norm(b.value) and norm(a.slice) == "0" and norm(b.slice) in ("1", "-1"):
+                bad.append(x)
+    c.check("C11.R6", not bad, repo.loc(lm, bad[0] if bad else fn), "collapse_vlandb/inclusive-pairs", f"`{norm(bad[0]) if bad else ''}` enumerates a (first, last) pair without its last id",
+            key_text="exclusive-range")
